@@ -38,8 +38,13 @@ def gen_tb(rng, tier, continuous=False, nsent=None):
                               sid_pattern="consecutive")
 
 
-def src_file(rng, tier, base, fmt=None, tb=None, name="in"):
+def src_file(rng, tier, base, fmt=None, tb=None, name="in", big=False):
     fmt = fmt or rng.choice(["export", "export", "tigerxml", "discobrackets", "brackets"])
+    if big:
+        # a gzip source bigger than an I/O buffer (what is unzipped is still being read while
+        # other calls run)
+        fmt = rng.choice(["export", "brackets"])
+        tb = gen_tb(rng, tier, continuous=(fmt == "brackets"), nsent=rng.randint(100, 180))
     if tb is None:
         tb = gen_tb(rng, tier, continuous=(fmt == "brackets"))
     codec, ext = SRC[fmt]
@@ -55,7 +60,7 @@ def src_file(rng, tier, base, fmt=None, tb=None, name="in"):
                     parens = True
                 elif t[0] in model.W_PUNCT and rng.random() < 0.5:
                     t[1] = rng.choice(model.P_PAREN)      # a bracket in the tag only
-    gz = fmt in ("export", "brackets") and rng.random() < 0.15
+    gz = fmt in ("export", "brackets") and (rng.random() < 0.15 or big)
     path = "%s/%s%s%s" % (base, name, ext, ".gz" if gz else "")
     spec = {"tb": tb, "codec": codec, "layout": rng.randrange(1 << 30),
             "enc": "utf-8", "gz": gz, "parens": parens}
@@ -75,8 +80,8 @@ def tfile(rng, tb, need_pos):
     return {"raw": "\n".join(lines) + ("\n" if lines else "")}
 
 
-def gen_convert(rng, tier, base, cli):
-    fmt, path, f = src_file(rng, tier, base)
+def gen_convert(rng, tier, base, cli, big=False):
+    fmt, path, f = src_file(rng, tier, base, big=big)
     files = {path: f}
     dfmt = rng.choice(["export", "tigerxml", "discobrackets", "brackets", "terminals"])
     trans = [list(x) for x in rng.choice(TRANS_PIPELINES)]
